@@ -41,6 +41,7 @@ pub fn rt() -> std::rc::Rc<tokio::runtime::Runtime> {
 /// failure-key label of a crash point, by what is in flight there
 pub fn generic_site_class(snap: &crash::Snapshot) -> String {
     match &snap.in_flight {
+        Some(_) if snap.post_sync_durable.is_some() => "file-written-after-its-fsync".into(),
         Some(p) if p.ends_with(".tmp") => "temp-file-unsynced".into(),
         Some(_) => "final-file-unsynced".into(),
         None => {
